@@ -1,15 +1,63 @@
 /-
 C14 — base rate metrics are weighted confusion-matrix ratios for any binary encoding.
-Property theorems only; helper lemmas live in `Lemmas/BaseMetrics.lean`.
+Property theorems only; helper lemmas live in `Lemmas/BaseMetrics.lean`, `Lemmas/BaseMetricsSrc.lean`
+and `Lemmas/C14Review.lean`.
+
+CLAUSE → THEOREM TABLE (review R3; "src_" = the same clause for the functions TRANSLATED from
+_base_metrics.py, which is what the driver ops `bms.*` evaluate; the hand model's ops `rate`, `selrate`,
+`meanpred`, `count` evaluate `rate`, `selectionRate`, `meanPrediction`, `count`)
+
+ 1 "TPR/FNR/FPR/TNR equal the (weighted) confusion-matrix ratios"
+      rate_is_class_fraction (each rate = weight of one cell / weight of the WHOLE true class, public level, a genuine
+      quotient when the class has a row: rate_class_weight_pos), rateOf_eq_class_fraction; src_rate_is_class_fraction   FULL
+   "for labels in {0,1}, {-1,1}"                default_encodings_accepted, default_restricted_iff                       FULL
+   "or any two values with pos_label given"     two_values_accepted, src_labels_pos_last, accepted_pos;
+                                                rejected otherwise: too_many_rejected, foreign_pos_rejected              FULL
+ 2 "return scalars"                             correspondence only (shape of the Python object: relation C14.scalar_result)
+   "in [0,1]"                                   rate_in_unit_interval, rate_public_in_unit_interval, src_rate_in_unit_interval  FULL
+ 3 "TPR+FNR = 1 when a positive row exists … (both terms are 0 otherwise)", same for TNR+FPR
+      tpr_add_fnr / tnr_add_fpr (in terms of the confusion-matrix row total), rowTot_pos_of_row,
+      tpr_add_fnr_public / tnr_add_fpr_public (public level, in terms of "a row of that class exists", positive
+      weights), rowTot_ne_zero_iff; src_tpr_add_fnr, src_tnr_add_fpr, src_tpr_add_fnr_row                               FULL
+ 4 "exchange roles when pos_label is switched to the other class"
+      pos_label_swap, pos_label_swap_public (two observed values), pos_label_swap_single (ONE observed value, the
+      other class unobserved — the quantifier includes single-valued vectors), src_pos_label_swap(_single)              FULL
+ 5 "selection_rate is the weighted fraction of predictions equal to pos_label"
+      selectionRate_def, selectionRate_spec (division-free, unique), selectionRate_in_unit_interval(_pos),
+      src_selection_rate_def/_spec/_in_unit_interval, src_selection_rate_empty                                          FULL
+   "mean_prediction the weighted mean prediction"  meanPrediction_def, meanPrediction_spec (division-free, unique),
+      meanPrediction_between, meanPrediction_unit, src_mean_prediction_def/_spec                                       FULL
+   "count the number of rows"                    count_def, src_count_eq_model, src_count_inconsistent                   FULL
+   "each returned as a scalar"                   correspondence only (C14.scalar_result)
+
+TOTALISATION (points where Lean's `x / 0 = 0` or a default would otherwise decide; each replayed on fairlearn):
+  * `ratio n 0 = 0` in the rates is sklearn's `nan_to_num` of an empty confusion-matrix row (real: 0.0) — modelled,
+    not an artefact; it is the "(both terms are 0 otherwise)" branch.
+  * ALL weights zero: sklearn raises ValueError("Sample weights must contain at least one non-zero number"), the
+    model answers `ok 0` (`rate_all_zero_weights_is_totalisation`). Outside the quantifier (positive weights); the
+    public-level theorems added by the review carry `PosW`.
+  * `selectionRate` / `meanPrediction` at total weight 0 (and `meanPrediction []`): numpy gives NaN, Lean gives 0
+    (`selectionRate_zero_total_is_totalisation`, `meanPrediction_zero_total_is_totalisation`);
+    `selectionRate_in_unit_interval` (hypothesis `NonNegW`) is true AT that point only by totalisation — the guarded
+    statement is `selectionRate_in_unit_interval_pos` / `selectionRate_spec`.
+  * a label equal to the sentinel `np.iinfo(np.int64).min`: the model's confusion matrix counts the row twice
+    (`sentinel_label_deviates`: model TPR 1/2, fairlearn 1.0). `pos_label_swap_single` excludes it explicitly.
+  * `getD i 0` on the ravelled matrix in the translation: the label list always has two entries
+    (`src_labels_eq_model`), so the default is never taken; `zip` truncation in `dot` / `cmCount`: all statements are
+    over the columns of ONE row list (equal lengths); unequal lengths raise in numpy/sklearn and are never sent to the
+    driver (`mkRows` answers `bad-op`).
 -/
 import FairModel.Lemmas.BaseMetrics
 import FairModel.Lemmas.BaseMetricsSrc
+import FairModel.Lemmas.C14Review
 
 namespace C14
 open BaseMetrics
 
 /-- every row weight is non-negative (the property quantifies over positive weights) -/
 def NonNegW (rows : List Row) : Prop := ∀ r ∈ rows, 0 ≤ r.w
+
+instance (rows : List Row) : Decidable (NonNegW rows) := by unfold NonNegW; infer_instance
 
 theorem cell_nonneg (rows : List Row) (hw : NonNegW rows) (a b : Int) : 0 ≤ cell rows a b :=
   wsum_nonneg _ rows hw
@@ -328,6 +376,352 @@ theorem src_mean_prediction_def (yt : List Rat) (rows : List PRow) :
   rw [src_mean_prediction_eq_model]; rfl
 
 end Source
+
+/-! ## Review additions (R3): public-level clauses, class-conditional form, single-valued swap, guarded
+quotients, totalisation witnesses, joint non-vacuity examples -/
+
+section Review
+open BaseMetricsSrc
+
+/-- the cell of the confusion matrix a rate reads and the true class it conditions on -/
+def trueClass (k : Kind) (neg pos : Int) : Int := match k with | .tpr => pos | .fnr => pos | .fpr => neg | .tnr => neg
+def predClass (k : Kind) (neg pos : Int) : Int := match k with | .tpr => pos | .fnr => neg | .fpr => pos | .tnr => neg
+
+/-- Clause 1 on the level of the confusion matrix: each rate is
+    (weight of the rows with true class c and predicted class d) / (weight of ALL rows with true class c),
+    with sklearn's 0 for an empty class — provided every prediction is one of the two labels. -/
+theorem rateOf_eq_class_fraction (k : Kind) (rows : List Row) (neg pos : Int) (hnp : neg ≠ pos)
+    (hyp : ∀ r ∈ rows, r.yp = neg ∨ r.yp = pos) :
+    rateOf k rows neg pos =
+      ratio (cell rows (trueClass k neg pos) (predClass k neg pos))
+            (wsum (fun r => r.yt == trueClass k neg pos) rows) := by
+  cases k <;>
+    simp only [rateOf, tprOf, fnrOf, fprOf, tnrOf, trueClass, predClass,
+      rowTot_eq_class_weight rows neg pos _ hnp hyp]
+
+/-- Clause 1 at the level of the public functions, for ANY accepted labelling (default encodings or
+    `pos_label` given): the call returns the class-conditional weighted fraction w.r.t. the label pair
+    `_get_labels_for_confusion_matrix` chose.  `pos ≠ int64Min` excludes the sentinel (see
+    `sentinel_label_deviates`). -/
+theorem rate_is_class_fraction (k : Kind) (rows : List Row) (p : Option Int) (neg pos : Int)
+    (hl : labelsForCM (allLabels rows) p = .ok (neg, pos)) (hnp : neg ≠ pos) :
+    rate k rows p =
+      .ok (ratio (cell rows (trueClass k neg pos) (predClass k neg pos))
+                 (wsum (fun r => r.yt == trueClass k neg pos) rows)) := by
+  have hm := labelsForCM_ok_mem _ _ _ _ hl
+  have hyp : ∀ r ∈ rows, r.yp = neg ∨ r.yp = pos := fun r hr =>
+    hm r.yp (by simp only [allLabels, List.mem_append, List.mem_map]; exact Or.inr ⟨r, hr, rfl⟩)
+  simp only [rate, hl]
+  rw [rateOf_eq_class_fraction k rows neg pos hnp hyp]
+
+/-- … and the quotient is a genuine one (non-zero denominator) as soon as the class has a row
+    (positive weights): nothing in `rate_is_class_fraction` is then decided by `ratio _ 0 = 0`. -/
+theorem rate_class_weight_pos (rows : List Row) (c : Int) (hw : PosW rows) (r : Row) (hr : r ∈ rows)
+    (hc : r.yt = c) : 0 < wsum (fun r => r.yt == c) rows :=
+  wsum_pos_of_mem _ rows hw.nonneg r hr (by simp [hc]) (hw r hr)
+
+/-- Clause 1, accepted encodings: any two observed values with `pos_label` one of them … -/
+theorem two_values_accepted (rows : List Row) (a b : Int) (hu : uniqueSorted (allLabels rows) = [a, b])
+    (k : Kind) :
+    rate k rows (some b) = .ok (rateOf k rows a b) ∧ rate k rows (some a) = .ok (rateOf k rows b a) := by
+  obtain ⟨h1, h2⟩ := labelsForCM_two (allLabels rows) a b hu
+  simp [rate, h1, h2]
+
+/-- … and `pos_label=None` on {0,1} and {-1,1} (positive label 1), incl. single-valued vectors -/
+theorem default_encodings_accepted (rows : List Row) (k : Kind) :
+    (uniqueSorted (allLabels rows) = [0, 1] → rate k rows none = .ok (rateOf k rows 0 1)) ∧
+    (uniqueSorted (allLabels rows) = [-1, 1] → rate k rows none = .ok (rateOf k rows (-1) 1)) ∧
+    (uniqueSorted (allLabels rows) = [0] → rate k rows none = .ok (rateOf k rows 0 1)) ∧
+    (uniqueSorted (allLabels rows) = [-1] → rate k rows none = .ok (rateOf k rows (-1) 1)) ∧
+    (uniqueSorted (allLabels rows) = [1] → rate k rows none = .ok (rateOf k rows int64Min 1)) := by
+  obtain ⟨h1, h2, h3, h4, h5⟩ := labelsForCM_default (allLabels rows)
+  refine ⟨?_, ?_, ?_, ?_, ?_⟩ <;> intro hu <;> simp [rate, h1, h2, h3, h4, h5, hu]
+
+/-- `pos_label=None` is rejected as "restricted" exactly when the labels are neither inside {0,1} nor
+    inside {-1,1} -/
+theorem default_restricted_iff (k : Kind) (rows : List Row) :
+    rate k rows none = .error .restricted ↔
+      ¬ ((∀ x ∈ allLabels rows, x = 0 ∨ x = 1) ∨ (∀ x ∈ allLabels rows, x = -1 ∨ x = 1)) := by
+  rw [← labelsForCM_none_restricted_iff]
+  unfold rate
+  cases h : labelsForCM (allLabels rows) none with
+  | error e => simp
+  | ok np => simp
+
+/-- "a row of class `a` exists" ⇔ the confusion-matrix row of `a` is non-empty (positive weights, every
+    prediction one of the two labels) -/
+theorem rowTot_ne_zero_iff (rows : List Row) (neg pos a : Int) (hw : PosW rows)
+    (hyp : ∀ r ∈ rows, r.yp = neg ∨ r.yp = pos) :
+    rowTot rows neg pos a ≠ 0 ↔ ∃ r ∈ rows, r.yt = a := by
+  constructor
+  · intro h
+    by_contra hno
+    have hno' : ∀ r ∈ rows, r.yt ≠ a := fun r hr hra => hno ⟨r, hr, hra⟩
+    exact h (by simp [rowTot, cell_eq_zero_of_no_true rows a _ hno'])
+  · rintro ⟨r, hr, hra⟩
+    exact rowTot_pos_of_row rows neg pos a hw.nonneg r hr hra (hyp r hr) (hw r hr)
+
+/-- Clause 3 at the level of the public functions, in the words of the property: whatever TPR and FNR
+    return for the same arguments, they add up to 1 when a row of the positive class exists and are
+    both 0 otherwise (positive weights; `pos` is the positive label the call uses). -/
+theorem tpr_add_fnr_public (rows : List Row) (p : Option Int) (x y : Rat) (hw : PosW rows)
+    (hx : rate .tpr rows p = .ok x) (hy : rate .fnr rows p = .ok y) :
+    ∃ neg pos, labelsForCM (allLabels rows) p = .ok (neg, pos) ∧
+      ((∃ r ∈ rows, r.yt = pos) → x + y = 1) ∧ ((∀ r ∈ rows, r.yt ≠ pos) → x = 0 ∧ y = 0) := by
+  unfold rate at hx hy
+  cases hl : labelsForCM (allLabels rows) p with
+  | error e => simp [hl] at hx
+  | ok np =>
+    obtain ⟨neg, pos⟩ := np
+    simp only [hl, rateOf, Except.ok.injEq] at hx hy
+    subst hx; subst hy
+    have hm := labelsForCM_ok_mem _ _ _ _ hl
+    have hyp : ∀ r ∈ rows, r.yp = neg ∨ r.yp = pos := fun r hr =>
+      hm r.yp (by simp only [allLabels, List.mem_append, List.mem_map]; exact Or.inr ⟨r, hr, rfl⟩)
+    refine ⟨neg, pos, rfl, ?_, ?_⟩
+    · intro he
+      exact (tpr_add_fnr rows neg pos).1 ((rowTot_ne_zero_iff rows neg pos pos hw hyp).2 he)
+    · intro hno
+      exact (tpr_add_fnr rows neg pos).2 (by simp [rowTot, cell_eq_zero_of_no_true rows pos _ hno])
+
+theorem tnr_add_fpr_public (rows : List Row) (p : Option Int) (x y : Rat) (hw : PosW rows)
+    (hx : rate .tnr rows p = .ok x) (hy : rate .fpr rows p = .ok y) :
+    ∃ neg pos, labelsForCM (allLabels rows) p = .ok (neg, pos) ∧
+      ((∃ r ∈ rows, r.yt = neg) → x + y = 1) ∧ ((∀ r ∈ rows, r.yt ≠ neg) → x = 0 ∧ y = 0) := by
+  unfold rate at hx hy
+  cases hl : labelsForCM (allLabels rows) p with
+  | error e => simp [hl] at hx
+  | ok np =>
+    obtain ⟨neg, pos⟩ := np
+    simp only [hl, rateOf, Except.ok.injEq] at hx hy
+    subst hx; subst hy
+    have hm := labelsForCM_ok_mem _ _ _ _ hl
+    have hyp : ∀ r ∈ rows, r.yp = neg ∨ r.yp = pos := fun r hr =>
+      hm r.yp (by simp only [allLabels, List.mem_append, List.mem_map]; exact Or.inr ⟨r, hr, rfl⟩)
+    refine ⟨neg, pos, rfl, ?_, ?_⟩
+    · intro he
+      exact (tnr_add_fpr rows neg pos).1 ((rowTot_ne_zero_iff rows neg pos neg hw hyp).2 he)
+    · intro hno
+      exact (tnr_add_fpr rows neg pos).2 (by simp [rowTot, cell_eq_zero_of_no_true rows neg _ hno])
+
+/-- Clause 4 for vectors with a SINGLE distinct value `a` (inside the property's quantifier): switching
+    `pos_label` from `a` to any other value `b` exchanges the roles as well.  `a ≠ int64Min`: the sentinel
+    the code pairs a single label with must not itself be the label (`sentinel_label_deviates`). -/
+theorem pos_label_swap_single (rows : List Row) (a b : Int) (hu : uniqueSorted (allLabels rows) = [a])
+    (hab : b ≠ a) (hs : a ≠ int64Min) :
+    rate .tpr rows (some a) = rate .tnr rows (some b) ∧
+    rate .fpr rows (some a) = rate .fnr rows (some b) ∧
+    rate .tnr rows (some a) = rate .tpr rows (some b) ∧
+    rate .fnr rows (some a) = rate .fpr rows (some b) := by
+  have hall : ∀ r ∈ rows, r.yt = a ∧ r.yp = a := by
+    intro r hr
+    have h1 : r.yt ∈ uniqueSorted (allLabels rows) :=
+      (mem_uniqueSorted _ _).2 (by simp only [allLabels, List.mem_append, List.mem_map]; exact Or.inl ⟨r, hr, rfl⟩)
+    have h2 : r.yp ∈ uniqueSorted (allLabels rows) :=
+      (mem_uniqueSorted _ _).2 (by simp only [allLabels, List.mem_append, List.mem_map]; exact Or.inr ⟨r, hr, rfl⟩)
+    rw [hu] at h1 h2
+    simp only [List.mem_singleton] at h1 h2
+    exact ⟨h1, h2⟩
+  have hs' : int64Min ≠ a := fun h => hs h.symm
+  have nt : ∀ c d, c ≠ a → cell rows c d = 0 := fun c d hc =>
+    cell_eq_zero_of_no_true rows c d (fun r hr h => hc (by rw [← h, (hall r hr).1]))
+  have np : ∀ c d, d ≠ a → cell rows c d = 0 := fun c d hd =>
+    cell_eq_zero_of_no_pred rows c d (fun r hr h => hd (by rw [← h, (hall r hr).2]))
+  have ha := labelsForCM_single (allLabels rows) a hu a
+  have hb := labelsForCM_single (allLabels rows) a hu b
+  simp only [if_true] at ha
+  rw [if_neg (fun h => hab h.symm)] at hb
+  simp only [rate, ha, hb, rateOf, tprOf, tnrOf, fprOf, fnrOf, rowTot]
+  refine ⟨?_, ?_, ?_, ?_⟩
+  · rw [np a int64Min hs', np a b hab]; simp
+  · rw [nt int64Min a hs', nt b a hab, ratio_zero_num, ratio_zero_num]
+  · rw [nt int64Min int64Min hs', nt b b hab, ratio_zero_num, ratio_zero_num]
+  · rw [np a int64Min hs', np a b hab, ratio_zero_num, ratio_zero_num]
+
+/-- MODEL DEVIATION, documented: if the single observed label IS the sentinel `np.iinfo(np.int64).min`,
+    the model's 2×2 matrix over the label list `[int64Min, int64Min]` counts the row in both columns
+    (TPR 1/2); sklearn maps the duplicated label to ONE index and fairlearn returns 1.0 (replayed).
+    The harness never generates this label; `pos_label_swap_single` excludes it. -/
+theorem sentinel_label_deviates :
+    rate .tpr [⟨int64Min, int64Min, 1⟩] (some int64Min) = .ok (1/2) := by decide +kernel
+
+/-- TOTALISATION WITNESS: with ALL weights zero the model answers 0 for every rate, sklearn raises
+    `ValueError("Sample weights must contain at least one non-zero number")` (replayed:
+    `true_positive_rate([1],[1],sample_weight=[0])`).  Outside the property's quantifier (positive weights);
+    the review's public-level theorems carry `PosW`. -/
+theorem rate_all_zero_weights_is_totalisation (k : Kind) (rows : List Row) (neg pos : Int)
+    (h0 : ∀ r ∈ rows, r.w = 0) : rateOf k rows neg pos = 0 := by
+  have hc : ∀ a b, cell rows a b = 0 := by
+    intro a b
+    unfold cell wsum
+    have : ((rows.filter (fun r => r.yt == a && r.yp == b)).map (·.w)) =
+        (rows.filter (fun r => r.yt == a && r.yp == b)).map (fun _ => (0 : Rat)) :=
+      List.map_congr_left (fun r hr => h0 r (List.mem_of_mem_filter hr))
+    rw [this]; simp
+  cases k <;> simp [rateOf, tprOf, fnrOf, fprOf, tnrOf, rowTot, hc, ratio_zero_den]
+
+/-- `selection_rate` in [0,1] with a GENUINE quotient: positive weights, non-empty input.
+    (`selectionRate_in_unit_interval` above also admits total weight 0, where its conclusion holds only
+    because Lean's `x / 0 = 0`; numpy returns NaN there.) -/
+theorem selectionRate_in_unit_interval_pos (rows : List Row) (pos : Int) (hne : rows ≠ []) (hw : PosW rows) :
+    ∃ v, selectionRate rows pos = .ok v ∧ 0 < totalW rows ∧
+      v * totalW rows = wsum (fun r => r.yp == pos) rows ∧ 0 ≤ v ∧ v ≤ 1 := by
+  obtain ⟨v, hv, hm, _⟩ := selectionRate_spec rows pos hne hw
+  exact ⟨v, hv, totalW_pos rows hne hw, hm, selectionRate_in_unit_interval rows pos v hw.nonneg hv⟩
+
+/-- `count` on arrays of different length raises (sklearn `check_consistent_length`) -/
+theorem src_count_inconsistent (yt yp : List Int) (h : yt.length ≠ yp.length) :
+    BaseMetricsSrc.count yt yp = .error .inconsistent := by
+  simp [BaseMetricsSrc.count, h, BaseMetricsGen.throw_eq, bind, Except.bind]
+
+/-- Clause 1 for the translated functions -/
+theorem src_rate_is_class_fraction (k : Kind) (rows : List Row) (p : Option Int) (neg pos : Int)
+    (hl : get_labels_for_confusion_matrix (allLabels rows) p = .ok [neg, pos]) (hnp : neg ≠ pos) :
+    BaseMetricsGen.rate k (colT rows) (colP rows) (colW rows) p =
+      .ok (ratio (cell rows (trueClass k neg pos) (predClass k neg pos))
+                 (wsum (fun r => r.yt == trueClass k neg pos) rows)) := by
+  rw [src_rate_eq_model]
+  apply rate_is_class_fraction k rows p neg pos _ hnp
+  rw [src_labels_eq_model] at hl
+  cases h : labelsForCM (allLabels rows) p with
+  | error e => simp [h, Except.map] at hl
+  | ok np =>
+    obtain ⟨n', p'⟩ := np
+    simp only [h, Except.map, Except.ok.injEq, List.cons.injEq, and_true] at hl
+    rw [hl.1, hl.2]
+
+/-- Clause 3 for the translated functions in the words of the property (a row of the positive class
+    exists / does not exist), positive weights -/
+theorem src_tpr_add_fnr_row (rows : List Row) (p : Option Int) (a b : Rat) (hw : PosW rows)
+    (ha : true_positive_rate (colT rows) (colP rows) (colW rows) p = .ok a)
+    (hb : false_negative_rate (colT rows) (colP rows) (colW rows) p = .ok b) :
+    ∃ neg pos, get_labels_for_confusion_matrix (allLabels rows) p = .ok [neg, pos] ∧
+      ((∃ r ∈ rows, r.yt = pos) → a + b = 1) ∧ ((∀ r ∈ rows, r.yt ≠ pos) → a = 0 ∧ b = 0) := by
+  have ha' := src_rate_eq_model .tpr rows p
+  have hb' := src_rate_eq_model .fnr rows p
+  simp only [BaseMetricsGen.rate] at ha' hb'
+  rw [ha'] at ha; rw [hb'] at hb
+  obtain ⟨neg, pos, hl, h1, h2⟩ := tpr_add_fnr_public rows p a b hw ha hb
+  exact ⟨neg, pos, by rw [src_labels_eq_model, hl]; rfl, h1, h2⟩
+
+theorem src_tnr_add_fpr_row (rows : List Row) (p : Option Int) (a b : Rat) (hw : PosW rows)
+    (ha : true_negative_rate (colT rows) (colP rows) (colW rows) p = .ok a)
+    (hb : false_positive_rate (colT rows) (colP rows) (colW rows) p = .ok b) :
+    ∃ neg pos, get_labels_for_confusion_matrix (allLabels rows) p = .ok [neg, pos] ∧
+      ((∃ r ∈ rows, r.yt = neg) → a + b = 1) ∧ ((∀ r ∈ rows, r.yt ≠ neg) → a = 0 ∧ b = 0) := by
+  have ha' := src_rate_eq_model .tnr rows p
+  have hb' := src_rate_eq_model .fpr rows p
+  simp only [BaseMetricsGen.rate] at ha' hb'
+  rw [ha'] at ha; rw [hb'] at hb
+  obtain ⟨neg, pos, hl, h1, h2⟩ := tnr_add_fpr_public rows p a b hw ha hb
+  exact ⟨neg, pos, by rw [src_labels_eq_model, hl]; rfl, h1, h2⟩
+
+/-- Clause 4, single observed value, for the translated functions -/
+theorem src_pos_label_swap_single (rows : List Row) (a b : Int) (hu : uniqueSorted (allLabels rows) = [a])
+    (hab : b ≠ a) (hs : a ≠ int64Min) :
+    true_positive_rate (colT rows) (colP rows) (colW rows) (some a) =
+      true_negative_rate (colT rows) (colP rows) (colW rows) (some b) ∧
+    false_positive_rate (colT rows) (colP rows) (colW rows) (some a) =
+      false_negative_rate (colT rows) (colP rows) (colW rows) (some b) ∧
+    true_negative_rate (colT rows) (colP rows) (colW rows) (some a) =
+      true_positive_rate (colT rows) (colP rows) (colW rows) (some b) ∧
+    false_negative_rate (colT rows) (colP rows) (colW rows) (some a) =
+      false_positive_rate (colT rows) (colP rows) (colW rows) (some b) := by
+  have h := pos_label_swap_single rows a b hu hab hs
+  have e : ∀ k p, BaseMetricsGen.rate k (colT rows) (colP rows) (colW rows) p = rate k rows p :=
+    fun k p => src_rate_eq_model k rows p
+  have e1 := e .tpr; have e2 := e .fnr; have e3 := e .fpr; have e4 := e .tnr
+  simp only [BaseMetricsGen.rate] at e1 e2 e3 e4
+  rw [e1, e1, e2, e2, e3, e3, e4, e4]
+  exact h
+
+/-- Clause 5 for the translated `selection_rate`: division-free and unique, in [0,1] -/
+theorem src_selection_rate_spec (rows : List Row) (pos : Int) (hne : rows ≠ []) (hw : PosW rows) :
+    ∃ v, selection_rate (colT rows) (colP rows) pos (colW rows) = .ok v ∧ 0 < totalW rows ∧
+      v * totalW rows = wsum (fun r => r.yp == pos) rows ∧ 0 ≤ v ∧ v ≤ 1 := by
+  rw [src_selection_rate_eq_model]; exact selectionRate_in_unit_interval_pos rows pos hne hw
+
+/-- Clause 5 for the translated `mean_prediction`: THE number v with v·Σw = Σ pred·w, between the
+    smallest and the largest prediction (positive weights, non-empty input) -/
+theorem src_mean_prediction_spec (yt : List Rat) (rows : List PRow) (lo hi : Rat) (hne : rows ≠ [])
+    (hw : PosP rows) (hb : ∀ r ∈ rows, lo ≤ r.pred ∧ r.pred ≤ hi) :
+    ∃ v, mean_prediction yt (rows.map (·.pred)) (some (rows.map (·.w))) = .ok v ∧ 0 < totalP rows ∧
+      v * totalP rows = (rows.map (fun r => r.pred * r.w)).sum ∧ lo ≤ v ∧ v ≤ hi := by
+  refine ⟨meanPrediction rows, src_mean_prediction_eq_model yt rows, totalP_pos rows hne hw,
+    (meanPrediction_spec rows hne hw).1, meanPrediction_between rows lo hi hne hw hb⟩
+
+end Review
+
+/-! ### Joint non-vacuity (review): for every theorem with hypotheses, ONE concrete non-trivial input that
+meets ALL of them, on the interesting branch (both classes present, weights ≠ 1, denominators ≠ 0, or the
+empty-class branch where that is the point). -/
+/-- weighted, both classes, both predictions, every cell non-empty -/
+def exW : List Row := [⟨1, 1, 2⟩, ⟨1, 0, 1⟩, ⟨0, 1, 1/2⟩, ⟨0, 0, 3⟩, ⟨1, 1, 3/4⟩]
+/-- two arbitrary values (3 = negative, 7 = positive), weighted -/
+def ex37 : List Row := [⟨7, 7, 2⟩, ⟨7, 3, 1⟩, ⟨3, 7, 5⟩, ⟨3, 3, 3⟩]
+/-- no positive row (true labels all 0) but positive predictions: the "both 0 otherwise" branch -/
+def exNoPos : List Row := [⟨0, 1, 2⟩, ⟨0, 0, 1⟩]
+/-- a single distinct value -/
+def exSingle : List Row := [⟨7, 7, 2⟩, ⟨7, 7, 1/2⟩]
+def exP : List PRow := [⟨1, 2⟩, ⟨0, 1⟩, ⟨3/4, 1/2⟩]
+
+-- rate_in_unit_interval / rate_public_in_unit_interval / src_rate_in_unit_interval
+example : NonNegW exW ∧ rate .fpr exW none = .ok (1/7) ∧
+    BaseMetricsGen.rate .fpr (colT exW) (colP exW) (colW exW) none = .ok (1/7) := by decide +kernel
+-- tpr_add_fnr / tnr_add_fpr: both branches
+example : rowTot exW 0 1 1 ≠ 0 ∧ rowTot exW 0 1 0 ≠ 0 ∧ tprOf exW 0 1 = 11/15 ∧ fnrOf exW 0 1 = 4/15 := by
+  decide +kernel
+example : rowTot exNoPos 0 1 1 = 0 ∧ rowTot exNoPos 0 1 0 ≠ 0 := by decide +kernel
+-- rowTot_pos_of_row
+example : NonNegW exW ∧ (⟨1, 0, 1⟩ : Row) ∈ exW ∧ (0 : Rat) < 1 := by decide +kernel
+-- pos_label_swap_public / src_pos_label_swap / two_values_accepted: a non-{0,1} encoding
+example : (3 : Int) < 7 ∧ uniqueSorted (allLabels ex37) = [3, 7] ∧
+    rate .tpr ex37 (some 7) = .ok (2/3) ∧ rate .tnr ex37 (some 3) = .ok (2/3) ∧
+    rate .fpr ex37 (some 7) = .ok (5/8) ∧ rate .fnr ex37 (some 3) = .ok (5/8) := by decide +kernel
+-- pos_label_swap_single / src_pos_label_swap_single
+example : uniqueSorted (allLabels exSingle) = [7] ∧ (3 : Int) ≠ 7 ∧ (7 : Int) ≠ int64Min ∧
+    rate .tpr exSingle (some 7) = .ok 1 ∧ rate .tnr exSingle (some 3) = .ok 1 ∧
+    rate .fnr exSingle (some 7) = .ok 0 ∧ rate .fpr exSingle (some 3) = .ok 0 := by decide +kernel
+-- too_many_rejected / foreign_pos_rejected / accepted_pos / src_labels_pos_last
+example : uniqueSorted [3, 9, 7, 3] = 3 :: 7 :: 9 :: [] ∧ labelsForCM [3, 9, 7, 3] (some 3) = .error .tooMany := by
+  decide +kernel
+example : uniqueSorted [3, 7, 3] = [3, 7] ∧ (9 : Int) ≠ 3 ∧ (9 : Int) ≠ 7 ∧
+    labelsForCM [3, 7, 3] (some 9) = .error .needPos := by decide +kernel
+example : labelsForCM [3, 7, 3] (some 3) = .ok (7, 3) ∧
+    BaseMetricsSrc.get_labels_for_confusion_matrix [3, 7, 3] (some 3) = .ok [7, 3] := by decide +kernel
+-- default_encodings_accepted / default_restricted_iff
+example : uniqueSorted (allLabels exW) = [0, 1] ∧ rate .tpr exW none = .ok (11/15) := by decide +kernel
+example : uniqueSorted (allLabels [⟨-1, 1, 2⟩, ⟨1, 1, 1⟩]) = [-1, 1] ∧
+    rate .tnr [⟨-1, 1, 2⟩, ⟨1, 1, 1⟩] none = .ok 0 := by decide +kernel
+example : rate .tpr ex37 none = .error .restricted := by decide +kernel
+-- rate_is_class_fraction / src_rate_is_class_fraction / rate_class_weight_pos: genuine quotient 11/4 ÷ 15/4
+example : labelsForCM (allLabels exW) none = .ok (0, 1) ∧ (0 : Int) ≠ 1 ∧ PosW exW ∧
+    cell exW 1 1 = 11/4 ∧ wsum (fun r => r.yt == 1) exW = 15/4 ∧
+    BaseMetricsSrc.get_labels_for_confusion_matrix (allLabels exW) none = .ok [0, 1] := by decide +kernel
+-- rowTot_ne_zero_iff / tpr_add_fnr_public / tnr_add_fpr_public / src_*_row: the "exists" branch …
+example : PosW exW ∧ rate .tpr exW none = .ok (11/15) ∧ rate .fnr exW none = .ok (4/15) ∧
+    labelsForCM (allLabels exW) none = .ok (0, 1) ∧ (⟨1, 0, 1⟩ : Row) ∈ exW := by decide +kernel
+-- … and the "otherwise" branch: no positive row, TPR = FNR = 0 although positive PREDICTIONS exist
+example : PosW exNoPos ∧ rate .tpr exNoPos none = .ok 0 ∧ rate .fnr exNoPos none = .ok 0 ∧
+    labelsForCM (allLabels exNoPos) none = .ok (0, 1) ∧ (∀ r ∈ exNoPos, r.yt ≠ 1) ∧
+    rate .tnr exNoPos none = .ok (1/3) ∧ rate .fpr exNoPos none = .ok (2/3) := by decide +kernel
+-- selectionRate_def / _spec / _in_unit_interval(_pos) / src_selection_rate_*
+example : exW ≠ [] ∧ PosW exW ∧ NonNegW exW ∧ selectionRate exW 1 = .ok (13/29) ∧
+    BaseMetricsSrc.selection_rate (colT exW) (colP exW) 1 (colW exW) = .ok (13/29) := by decide +kernel
+-- selectionRate_zero_total_is_totalisation: the only way to total weight 0 is a non-positive weight
+example : ([⟨1, 1, 0⟩] : List Row) ≠ [] ∧ totalW [⟨1, 1, 0⟩] = 0 ∧ NonNegW [⟨1, 1, 0⟩] ∧ ¬ PosW [⟨1, 1, 0⟩] := by
+  decide +kernel
+-- meanPrediction_unit / _spec / _between / src_mean_prediction_spec
+example : exP ≠ [] ∧ PosP exP ∧ (∀ r ∈ exP, (0 : Rat) ≤ r.pred ∧ r.pred ≤ 1) ∧ meanPrediction exP = 19/28 := by
+  decide +kernel
+example : (∀ r ∈ ([⟨1, 1⟩, ⟨0, 1⟩, ⟨1/2, 1⟩] : List PRow), r.w = 1) ∧
+    meanPrediction [⟨1, 1⟩, ⟨0, 1⟩, ⟨1/2, 1⟩] = 1/2 := by decide +kernel
+-- src_count_inconsistent
+example : BaseMetricsSrc.count [1, 0] [1] = .error .inconsistent ∧ BaseMetricsSrc.count [1, 0] [1, 1] = .ok 2 := by
+  decide +kernel
+-- the empty input is rejected by the rates exactly as fairlearn does ("no more than two unique y values")
+example : rate .tpr [] none = .error .tooMany ∧
+    BaseMetricsSrc.true_positive_rate [] [] none none = .error .tooMany := by decide +kernel
 
 /-! Non-vacuity: concrete inputs meeting the hypotheses, evaluated by the kernel. -/
 def ex1 : List Row := [⟨1, 1, 2⟩, ⟨1, 0, 1⟩, ⟨0, 1, 1⟩, ⟨0, 0, 3⟩]
